@@ -95,6 +95,12 @@ check("C01", "fault_enumeration",
       "Fault positions are exhaustive per generated program; programs and resource mixes are sampled. Documented panics (abort after a relaxed send or SingleOutputChan write) are accepted as failing loudly. Procedures are not generated here (C04).",
       "runtime monitoring: fault-position enumeration with reference-model oracle and protocol-asserting wrapper resources at commit/abort hooks", "direct")
 
+
+check("C02", "exploration",
+      "For every spec/Go pair with an adapter (all systems/* pairs except replicatedkv/raftres, and the compiler test pairs) the real generated archetypes run one attempt at a time under seeded schedules over harness resources implementing the spec's mapping macros exactly; every committed step changes the exact global state, and the recorded state sequence is validated by TLC against the shipped translation (for the test pairs: the .expectpcal translated by pcal): each consecutive pair must be a step of Next with every variable pinned, the first state must satisfy Init, and a Go assertion failure must coincide with a spec assertion failure from the same state. Coverage is reported per pair as labels whose steps TLC accepted.",
+      "Held on the recorded runs only; reachable pre-states and choice resolutions are sampled by the scheduler. TLC is an evaluator here, not an explorer. A spec-level assertion failure that TLC finds enabled in a visited state (not taken by Go) voids that trace and is noted, not reported. Pairs without an adapter (replicatedkv, raftres) are not claimed.",
+      "runtime monitoring: recorded executions of the real generated code validated offline, step by step, by TLC against the shipped spec (translation validation over observed traces)", "simsched+tlc")
+
 PROPS = [json.loads(l)["id"] for l in open(os.path.join(ROOT, "properties.jsonl"))]
 
 def main():
